@@ -24,6 +24,11 @@ pub struct StoreCtx {
     pub avail: u64,
     pub snap_desc: Vec<u8>,
     pub snap_avail: Vec<u8>,
+    /// device-visible image at the start of the current operation (for the net effect of the operation)
+    pub op_desc: Vec<u8>,
+    pub op_avail: Vec<u8>,
+    /// whether the last store that changed anything in the current operation changed the available index
+    pub last_change_was_idx: bool,
     /// (logical clock, canonical store text)
     pub events: Vec<(u64, String)>,
     /// device model used by the per-store oracle (clone of the case's device: fetch pointer, in-flight)
@@ -55,6 +60,9 @@ impl StoreCtx {
             avail,
             snap_desc: read_area(desc, 16 * n),
             snap_avail: read_area(avail, 6 + 2 * n),
+            op_desc: read_area(desc, 16 * n),
+            op_avail: read_area(avail, 6 + 2 * n),
+            last_change_was_idx: false,
             events: vec![],
             dev,
             expected: HashMap::new(),
@@ -67,6 +75,28 @@ impl StoreCtx {
     pub fn resync(&mut self) {
         self.snap_desc = read_area(self.desc, 16 * self.n);
         self.snap_avail = read_area(self.avail, 6 + 2 * self.n);
+        self.op_desc = self.snap_desc.clone();
+        self.op_avail = self.snap_avail.clone();
+    }
+    /// Net effect of the current operation on driver-written device-visible memory: the locations
+    /// whose value now differs from the value at the start of the operation, as sorted texts with the
+    /// available index last.  (Which intermediate values a location went through, and in which order
+    /// different locations were written before the index, is not fixed by the properties; the order
+    /// "index last" is checked separately on the raw store sequence.)  Starts the next operation.
+    pub fn net_effect(&mut self) -> Vec<String> {
+        let (sd, sa) = (std::mem::take(&mut self.snap_desc), std::mem::take(&mut self.snap_avail));
+        self.snap_desc = std::mem::take(&mut self.op_desc);
+        self.snap_avail = std::mem::take(&mut self.op_avail);
+        let mut toks = self.diff();
+        // `diff` has set snap_* to the current memory
+        let _ = (sd, sa);
+        self.op_desc = self.snap_desc.clone();
+        self.op_avail = self.snap_avail.clone();
+        let idx: Vec<String> = toks.iter().filter(|t| t.starts_with("idx=")).cloned().collect();
+        toks.retain(|t| !t.starts_with("idx="));
+        toks.sort();
+        toks.extend(idx);
+        toks
     }
     /// diff current memory against the snapshot; returns canonical texts of changed locations
     fn diff(&mut self) -> Vec<String> {
@@ -176,6 +206,7 @@ pub fn on_store() {
             if d.is_empty() {
                 ctx.events.push((seq, "nochange".into()));
             } else {
+                ctx.last_change_was_idx = d.len() == 1 && d[0].starts_with("idx=");
                 ctx.events.push((seq, d.join("&")));
             }
             ctx.check_complete();
@@ -275,7 +306,17 @@ impl<const N: usize> Live<N> {
             }
         });
         all.sort_by_key(|(s, _)| *s);
-        let txt = if all.is_empty() { "-".to_string() } else { all.into_iter().map(|(_, x)| x).collect::<Vec<_>>().join(" ") };
+        // canonical form: platform events in order, then the net effect on device-visible memory
+        let mut toks: Vec<String> = h.iter().map(|(_, e)| e.canon()).collect();
+        if !hostile {
+            STORE.with(|s| {
+                if let Some(ctx) = s.borrow_mut().as_mut() {
+                    toks.extend(ctx.net_effect());
+                }
+            });
+        }
+        let _ = all;
+        let txt = if toks.is_empty() { "-".to_string() } else { toks.join(" ") };
         (txt, h)
     }
 
@@ -433,7 +474,8 @@ impl<const N: usize> Live<N> {
                     (a, b) => c.fail(format!("[C01] cannot read available ring: {:?} {:?}", a.err(), b.err())),
                 }
                 // C02: the index store is the last device-visible change of the submission
-                if !self.hostile && !evs.ends_with(&format!("idx={}", avail_before.wrapping_add(1))) {
+                let idx_last = STORE.with(|s| s.borrow().as_ref().map(|c| c.last_change_was_idx).unwrap_or(true));
+                if !self.hostile && !(idx_last && evs.ends_with(&format!("idx={}", avail_before.wrapping_add(1)))) {
                     c.fail(format!("[C02] available index is not the last device-visible location to change: {}", evs));
                 }
                 STORE.with(|s| {
